@@ -146,11 +146,20 @@ func genPipeline(t *rapid.T) pipeline {
 	if rapid.IntRange(0, 3).Draw(t, "topicNaming") > 0 {
 		// topic names are the application's: any distinct strings serve (dotted, with slashes, long, differing in one character)
 		ren := map[string]string{}
+		// ... also the empty string (one topic at most, they stay distinct) and names with blanks around them
+		all := append(append([]string{}, p.Sources...), p.Sink)
+		for _, st := range p.Stages {
+			all = append(all, st[0].Out)
+		}
+		if k := rapid.IntRange(-2*len(all), len(all)-1).Draw(t, "topicWithTheEmptyName"); k >= 0 {
+			ren[all[k]] = ""
+		}
 		name := func(s string) string {
 			if v, ok := ren[s]; ok {
 				return v
 			}
-			ren[s] = s + rapid.SampledFrom([]string{".", "/", "-", "_", ""}).Draw(t, "topicSeparator") + rapid.StringMatching(`[a-zA-Z0-9._/-]{1,10}`).Draw(t, "topicNamePart")
+			ren[s] = rapid.SampledFrom([]string{"", "", "", " ", "\t"}).Draw(t, "topicLead") + s + rapid.SampledFrom([]string{".", "/", "-", "_", "", " "}).Draw(t, "topicSeparator") +
+				rapid.StringMatching(`[a-zA-Z0-9._/-]{1,10}`).Draw(t, "topicNamePart") + rapid.SampledFrom([]string{"", "", "", " ", "\n"}).Draw(t, "topicTail")
 			return ren[s]
 		}
 		for i := range p.Sources {
